@@ -23,9 +23,9 @@ PID = "C06"
 
 
 def _judge(args):
-    xml, wb, lid, v, an, kw = args
+    xml, wb, lid, v, an, kw, tp = args
     try:
-        return c06_oracle.judge(xml, wb, _judge.tj, lid, v, an, kw)
+        return c06_oracle.judge(xml, wb, _judge.tj, lid, v, an, kw, tp)
     except RecursionError:
         return ["oracle: recursion limit"]
 
@@ -87,14 +87,18 @@ def run(ctx):
             docs += c06_gen.documents(tj, common.Rng(ctx.seed * 1000 + s, 6), quick)
     corpus_opts = [(3, 1, 0, 0), (3, 0, 0, 0), (1, 1, 1, 1), (2, 0, 1, 0), (0, 1, 0, 1), (3, 1, 1, 0)] if quick else c06_gen.OPTION_TUPLES
     cases = []          # (line, lang, kind, xml, opts)
+    # wbxml_encoder_set_text_public_id(TRUE) (fifth option, only through the encoder API): a few tuples per document
+    TEXT_PID_TUPLES = [(3, 1, 0, 0, 1), (3, 0, 0, 0, 1), (1, 1, 1, 0, 1), (2, 1, 0, 1, 1)]
     for lid, kind, xml, _ in docs:
         for o in (corpus_opts if kind.startswith("corpus") or kind == "kept" else c06_gen.OPTION_TUPLES):
             cases.append(("%s %d %d %d %d" % ((xml.hex(),) + o), lid, kind, xml, o))
+        for o in TEXT_PID_TUPLES:
+            cases.append(("%s %d %d %d %d %d" % ((xml.hex(),) + o), lid, kind + ":text-public-id", xml, o))
     if getattr(ctx, "replay", None):
         rp = json.load(open(ctx.replay))
         if "input" in rp:
-            x, v, st, kw, an = rp["input"].split()
-            cases = [(rp["input"], rp.get("lang", 0), "replay", bytes.fromhex(x), (int(v), int(st), int(kw), int(an)))]
+            f = rp["input"].split()
+            cases = [(rp["input"], rp.get("lang", 0), "replay", bytes.fromhex(f[0]), tuple(int(t) for t in f[1:]))]
 
     ca, crashes = common.run_lines(harness, [c[0] for c in cases], timeout=1200)
     # model on the C's tree
@@ -102,7 +106,8 @@ def run(ctx):
     for i, a in enumerate(ca):
         if a and a.startswith("T OK"):
             tree = a.partition(" | ")[0][5:]
-            mlines.append("%d %d %d %d %s" % (cases[i][4] + (tree,)))
+            o = cases[i][4]
+            mlines.append(("tp " if len(o) > 4 and o[4] else "") + "%d %d %d %d %s" % (o[:4] + (tree,)))
             midx.append(i)
     ma, mcr = common.run_lines(driver, mlines, timeout=1200)
     model = dict(zip(midx, ma))
@@ -135,7 +140,7 @@ def run(ctx):
         if cw.startswith("W OK"):
             enc_status["encoded"] = enc_status.get("encoded", 0) + 1
             wb = bytes.fromhex(cw[5:]) if cw[5:] != "-" else b""
-            jobs.append((xml, wb, real_lid, o[0], bool(o[3]), bool(o[2])))
+            jobs.append((xml, wb, real_lid, o[0], bool(o[3]), bool(o[2]), len(o) > 4 and bool(o[4])))
             jidx.append(i)
             nontrivial.add((real_lid, cw[5:]))
         else:
@@ -165,10 +170,11 @@ def run(ctx):
         if o[1] == 1 and o[2] == 0 and c06_tree.d7_shape(nodes):
             former_d7 += 1
         if v:
-            concrete.append({"input": line, "lang": real_lid, "kind": kind, "options": {"version": o[0], "use_strtbl": o[1], "keep_ws": o[2], "anonymous": o[3]},
+            concrete.append({"input": line, "lang": real_lid, "kind": kind, "options": {"version": o[0], "use_strtbl": o[1], "keep_ws": o[2], "anonymous": o[3], "text_public_id": int(len(o) > 4 and o[4])},
                              "oracle": v[:4], "c": ca[i].partition(" | ")[2][:4000]})
         else:
-            ok_by_src.setdefault((xml, o[2]), set()).add(o)
+            if len(o) == 4:
+                ok_by_src.setdefault((xml, o[2]), set()).add(o)
     for cr in crashes:
         concrete.append({"kind": "crash-or-sanitizer-report", "input": cr.get("first_unanswered"), **{k: v for k, v in cr.items() if k != "first_unanswered"}})
 
